@@ -32,6 +32,8 @@ def opMatch (args : List W) : String :=
     match decNetRule r, decRequest q, decPslTable psl, decAddrTable addrs with
     | some r, some q, some psl, some addrs =>
       let ext := withModelPat (mkExt psl addrs [])
+      -- mixed-case hostnames of hostname requests are outside the domain (DESIGN §6)
+      if q.isHostnameRequest && q.hostname.any Bytes.isUpper then "ood -" else
       if !matchDecided ext r q then "ood -" else
       let spec :=
         if !q.inDomainB then "-"
@@ -119,6 +121,7 @@ def opTextMatch (args : List W) : String :=
       | .error .err => "err err"
       | .error .panic => "PANIC PANIC"
       | .ok r =>
+        if q.isHostnameRequest && q.hostname.any Bytes.isUpper then "ood -" else
         if !matchDecided ext r q then "ood -" else
         let decided := (modelPat r.pattern (r.isEnabled Facts.OptionMatchCase) (matchTarget r q)).isSome
         let spec :=
